@@ -78,13 +78,13 @@ uint_t arch_lzcnt(dig_t a) {
 #ifdef _MSC_VER
     return __lzcnt(a);
 #else
-	return __builtin_clz(a);
+	return (a == 0 ? 32 : __builtin_clz(a));
 #endif
 #elif WSIZE == 64
 #ifdef _MSC_VER
     return __lzcnt64(a);
 #else
-	return __builtin_clzl(a);
+	return (a == 0 ? 64 : __builtin_clzl(a));
 #endif
 #endif
 }
@@ -122,13 +122,13 @@ uint_t arch_tzcnt(dig_t a) {
 #ifdef _MSC_VER
     return __tzcnt(a);
 #else
-	return __builtin_ctz(a);
+	return (a == 0 ? 32 : __builtin_ctz(a));
 #endif
 #elif WSIZE == 64
 #ifdef _MSC_VER
     return __tzcnt64(a);
 #else
-	return __builtin_ctzl(a);
+	return (a == 0 ? 64 : __builtin_ctzl(a));
 #endif
 #endif
 }
